@@ -19,6 +19,49 @@ DIRECTIVES = ["#if defined(FOO) && BAR > 1", "#ifdef FOO", "#ifndef _OPENMP", "#
               "#if A \\\n  && B", "#endif /* FOO */"]
 
 
+_IDS = ["FOO", "BAR", "_OPENMP", "USE_MPI", "x1", "Mixed_Case"]
+_EXPRS = ["defined(FOO) && BAR > 1", "FOO", "!defined(X)", "A || B", "(VER >= 3)", "0", "defined FOO", "BAR == 2", "X+1 > (Y<<2)"]
+_TAILS = ["", "", "", " /* FOO */", " /* !MACRO */", " // X", " FOO", "   "]
+
+
+def gen_directive(rng):
+    """one preprocessor line built from keyword x payload shape x decoration (blanks after '#',
+    indentation, trailing comment / tokens, backslash continuation)"""
+    kw = rng.choice(["if", "ifdef", "ifndef", "elif", "else", "endif", "include", "define", "undef", "line", "error", "warning", "null", "linemarker"])
+    pre = rng.choice(["", "", "", " ", "  "]) + "#" + rng.choice(["", "", "", " ", "  "])
+    cont = "\\\n"
+    if kw in ("if", "elif"):
+        e = rng.choice(_EXPRS)
+        if rng.random() < 0.15:
+            e = e + " " + cont + "  && " + rng.choice(_EXPRS)
+            if rng.random() < 0.4:
+                e = e + " " + cont + "  || " + rng.choice(_IDS)
+        return pre + kw + " " + e + rng.choice(["", "", " /* c */"])
+    if kw in ("ifdef", "ifndef", "undef"):
+        return pre + kw + " " + rng.choice(_IDS) + rng.choice(["", "", "  "])      # trailing comment: F-C14-3 (probe stream)
+    if kw in ("else", "endif"):
+        return pre + kw + rng.choice(_TAILS)
+    if kw == "include":
+        return pre + kw + " " + rng.choice(['"defs.h"', "<stdio.h>", '"sub/dir/x.inc"', '"a b.h"']) + rng.choice(["", "", "  "])
+    if kw == "define":
+        nm = rng.choice(_IDS)
+        r = rng.random()
+        if r < 0.2:
+            return pre + kw + " " + nm
+        if r < 0.5:
+            return pre + kw + " " + nm + " " + rng.choice(["1", "(2*3)", "'str ! x'", "a + b", "real(8)"])
+        if r < 0.8:
+            return pre + kw + " " + nm + rng.choice(["(a,b)", "(a)", "()", "(a, ...)"]) + " " + rng.choice(["((a)>(b)?(a):(b))", "a", "__VA_ARGS__", "call f(a)"])
+        return pre + kw + " " + nm + " 1 + " + cont + "   2 + " + cont + "   3"
+    if kw == "line":
+        return pre + kw + " " + str(rng.randint(1, 999)) + rng.choice(["", ' "file.F90"'])
+    if kw in ("error", "warning"):
+        return pre + kw + rng.choice([" this is 'bad'", " careful ! not a comment", "", ' "quoted"'])
+    if kw == "linemarker":
+        return "# " + str(rng.randint(1, 99)) + ' "marker.f90"' + rng.choice(["", " 2", " 1 3"])
+    return pre.rstrip() if pre.rstrip() == "#" else "#"
+
+
 def dnorm(t):
     return "".join(t.replace("\\\n", "").split())
 
@@ -48,7 +91,34 @@ def strip_cpp(s):
     return s
 
 
+# known finding F-C14-3: a comment (or any text) after the identifier of #ifdef/#ifndef/#undef or
+# after the file name of #include makes the line match no Cpp class -> syntax error
+TRAILING_PROBES = ["#ifdef FOO /* c */", "#ifndef FOO /* c */", "#undef FOO /* c */", '#include "defs.h" /* c */']
+TRAILING_OK = ["#endif /* c */", "#else /* c */", "#if FOO /* c */", "#elif FOO /* c */", "#define FOO 1 /* c */", "#ifdef FOO  ", "#undef FOO\t"]
+
+
+def run_probe(case):
+    res = {"key": ["probe"], "counts": {}, "findings": [], "nontrivial": True, "keys": []}
+    for std in ("f2003", "f2008"):
+        for d in TRAILING_PROBES + TRAILING_OK:
+            src = "program p\n  integer :: i\n%s\n  i = 1\n#endif\nend program p\n" % d
+            o = real.try_parse(src, std=std, ignore_comments=True, free=True)
+            res["keys"].append(std + ":" + d)
+            ok = o.kind == "tree" and dnorm(d) in dnorm(str(o.tree))
+            if d in TRAILING_PROBES:
+                res["findings"].append({"signature": "pred:cpp_trailing_text_after_identifier" if not ok else "probe-now-accepted:" + d.split()[0],
+                                        "what": ("directive %r is rejected: %s" % (d, str(o.exc)[:80].replace("\n", " "))) if not ok else
+                                                ("directive %r, listed as known finding F-C14-3, is now kept: remove the finding" % d),
+                                        "replay": {"case": case, "source": src, "std": std}})
+            elif not ok:
+                res["findings"].append({"signature": "cpp-reject:probe:" + d.split()[0], "what": "directive %r rejected or not kept: %s" % (d, str(o.exc)[:100]),
+                                        "replay": {"case": case, "source": src, "std": std}})
+    return res
+
+
 def run_case(case):
+    if case.get("kind") == "probe":
+        return run_probe(case)
     p = util.program_case(case)
     std, keep = case["std"], case["keep"]
     rng = random.Random(case["seed"] ^ 0xC14)
@@ -70,7 +140,7 @@ def run_case(case):
     lines = list(L.lines)
     D = []
     for ln in reversed(where):
-        d = rng.choice(DIRECTIVES)
+        d = rng.choice(DIRECTIVES) if rng.random() < 0.4 else gen_directive(rng)
         lines[ln - 1:ln - 1] = d.split("\n")
         D.insert(0, d)
     src = "\n".join(lines) + "\n"
@@ -151,7 +221,7 @@ def run_case(case):
 
 def cases(tier, seed):
     n = util.tier_n(tier, 150, 1500)
-    return [{"seed": s, "std": "f2008" if i % 3 else "f2003", "keep": i % 2 == 1, "size": 0.8} for i, s in enumerate(util.seeds(seed, n, 14))]
+    return [{"kind": "probe", "seed": 0}] + [{"seed": s, "std": "f2008" if i % 3 else "f2003", "keep": i % 2 == 1, "size": 0.8} for i, s in enumerate(util.seeds(seed, n, 14))]
 
 
 def run(tier, rep, st):
